@@ -243,7 +243,7 @@ def const_of(e: Optional[ast.AST]):
     return "expr"
 
 
-LATER_RULES = ' Later rules: R16.4 emptiness by iteration; R16.6/R16.12 through helpers; R16.11 also while-else and remove_dead_ifs; R16.13 counts parameters; (R16.14) analysers keep no module-level memory; (R16.15) named callees and undecorated functions only. (R16.22) the whitelist handed to recursive calls is that of the caller, never a locally widened one; (R16.21) optional parameters of has_side_effect that recursive calls leave out have empty defaults; (R16.20) a with statement does not block through an exception raised in its body (the context manager may swallow it).'
+LATER_RULES = ' Later rules: R16.4 emptiness by iteration; R16.6/R16.12 through helpers; R16.11 also while-else and remove_dead_ifs; R16.13 counts parameters; (R16.14) analysers keep no module-level memory; (R16.15) named callees and undecorated functions only. (R16.23) the only stored name that is no effect is `_`, compared by equality with the constant; (R16.22) the whitelist handed to recursive calls is that of the caller, never a locally widened one; (R16.21) optional parameters of has_side_effect that recursive calls leave out have empty defaults; (R16.20) a with statement does not block through an exception raised in its body (the context manager may swallow it).'
 
 
 def check(prog: Program, tier: str) -> Result:
@@ -298,7 +298,8 @@ def check(prog: Program, tier: str) -> Result:
     _r16_20(prog, res)
     _r16_21(prog, res)
     _r16_22(prog, res)
-    res.floors.update({"R16.22": 1, "R16.21": 1, "R16.20": 1, "R16.1": 60, "R16.2": 25, "R16.3": 10, "R16.4": 2, "R16.5": 1, "R16.6": 3, "R16.7": 8, "R16.8": 5, "R16.9": 2, "R16.10": 4, "R16.11": 1, "R16.12": 1, "R16.13": 1, "R16.15": 2, "R16.16": 3, "R16.17": 1, "R16.18": 4, "R16.19": 1})
+    _r16_23(prog, res)
+    res.floors.update({"R16.23": 2, "R16.22": 1, "R16.21": 1, "R16.20": 1, "R16.1": 60, "R16.2": 25, "R16.3": 10, "R16.4": 2, "R16.5": 1, "R16.6": 3, "R16.7": 8, "R16.8": 5, "R16.9": 2, "R16.10": 4, "R16.11": 1, "R16.12": 1, "R16.13": 1, "R16.15": 2, "R16.16": 3, "R16.17": 1, "R16.18": 4, "R16.19": 1})
     res.analysed.update({"ast_kinds": len(kinds)})
     return res
 
@@ -938,6 +939,32 @@ def _r16_18(prog: Program, res: Result) -> None:
 
 
 # ------------------------------------------------------------------------------------------------ R16.19
+# ------------------------------------------------------------------------------------------------ R16.23
+def _r16_23(prog: Program, res: Result) -> None:
+    """Binding a name is an effect - with ONE documented exception: the name `_`.  The consumers (and safe mode: C07 R7.2 / R7.6 ask for
+    `'_' in preserve` and nothing else) rely on the exception being exactly that name.  Obligation: wherever has_side_effect looks at the
+    identifier of a stored name, it compares it with the constant "_" by == / != and in no other way (no strip / startswith / regular
+    expression / membership in a set of throw-away names)."""
+    fn = prog.func("core", "has_side_effect")
+    n = 0
+    for e in walk_own(fn.node):
+        if not (isinstance(e, ast.Attribute) and e.attr == "id" and isinstance(e.ctx, ast.Load)):
+            continue
+        p_ = parent(e)
+        # uses of `<x>.id` as the callee name test of calls (`child.id in whitelist`) are about CALLS, not about stores
+        if isinstance(p_, ast.Compare) and any(isinstance(op, (ast.In, ast.NotIn)) for op in p_.ops) and p_.left is e and not isinstance(p_.comparators[0], (ast.Set, ast.Tuple, ast.List)):
+            continue
+        n += 1
+        ok = isinstance(p_, ast.Compare) and len(p_.ops) == 1 and isinstance(p_.ops[0], (ast.Eq, ast.NotEq)) and any(
+            isinstance(o, ast.Constant) and o.value == "_" for o in [p_.left] + p_.comparators)
+        res.decide(ok, "R16.23", fn.loc(p_ if p_ is not None else e), fn.fq, f"{short(p_ if p_ is not None else e, 60)} # which stored names are no effect",
+                   "exactly the name `_`" if ok else
+                   "the identifier is tested in another way than `== \"_\"`: more names than `_` count as throw-away (`__`, `___`, ..), an assignment to one of them is deleted as "
+                   "pointless although no rule and no option (safe mode asks for '_' only) knows that exception")
+    if n == 0:
+        res.undecided("R16.23", fn.loc(), fn.fq, "which stored names are no effect", "no test of an identifier found")
+
+
 # ------------------------------------------------------------------------------------------------ R16.22
 def _r16_22(prog: Program, res: Result) -> None:
     """The whitelist of safe callables is the CALLER's knowledge about the module.  has_side_effect widens it locally for one purpose
